@@ -73,47 +73,130 @@ def search(ctx):
     return out[:4000]
 
 
+# deviation classes that concern the files of a compilation, not macro expansion
+FILE_LEVEL = {"pragma-once-by-include-name", "duplicate-api-define", "paste-in-api-define"}
+
+
+def custom(ctx):
+    """standard run + cross-check of the class of the refinement theorem against the real code:
+    the model's driver decides (`C12.tame`, Model/MacroTame.lean `tameRunP` on every block of text lines) whether a
+    program lies in the class on which `expand_refines_spec_with_paste_decided` proves rssl = reference C algorithm.  On such a
+    program the real preprocessor must not differ from the harness's independent reference preprocessor in any way
+    that concerns macro expansion."""
+    ctx.standard_run()
+    if not ctx.spec.get("harness") or not ctx.harness_ok:
+        return
+    reqs = sorted(r for r in ctx.distinct if r.startswith("C12.run\t"))
+    if not reqs:
+        return
+    answers = ctx.run_model(["C12.tame" + r[len("C12.run"):] for r in reqs])
+    failing = {}
+    for req, obs, orc in ctx.oracle_failures:
+        failing.setdefault(req, (obs, orc))
+    tame, bad = 0, []
+    for req, a in zip(reqs, answers):
+        if a != "tame":
+            continue
+        tame += 1
+        if req in failing:
+            obs, orc = failing[req]
+            m = re.match(r"FAIL:differs-from-C\[([^\]]+)\]", orc)
+            classes = set(m.group(1).split("+")) if m else {"panic"}
+            if classes - FILE_LEVEL:
+                bad.append((req, obs, orc))
+    ctx.extra["tame_class"] = {
+        "programs_classified": len(reqs), "tame": tame, "tame_but_real_differs_from_reference": len(bad),
+        "meaning": "tame = every block of text lines of the program is accepted by tameRunP (class of "
+                   "expand_refines_spec_with_paste_decided); on those the real output must equal the reference preprocessor's"}
+    ctx.say(f"[{ctx.id}] class of expand_refines_spec_with_paste_decided: {tame} of {len(reqs)} programs are tame, "
+            f"{len(bad)} of them differ from the reference")
+    for req, obs, orc in bad[:3]:
+        ctx.broken.append("expand_refines_spec_with_paste_decided claims rssl = C on a tame program, but the real preprocessor "
+                          f"differs from the reference on it: {req!r} -> {obs!r} ({orc})")
+    if bad:
+        # a concrete failing input: the real code violates the property on an input where the proof says it cannot
+        req, obs, orc = min(bad, key=lambda b: len(b[0]))
+        path = ctx.write_replay("input", {"request": req, "observed": obs, "oracle": orc,
+                                          "found_by": "tame program (class of expand_refines_spec_with_paste_decided) on which the "
+                                                      "real preprocessor differs from the reference preprocessor"})
+        ctx.violations.append((path, ""))
+
+
 SPEC = {
     "id": "C12",
-    "gens": ["MacroTables"],
-    "lean_modules": ["RsslVerif.Thm.C12"],
+    "gens": ["MacroTables", "LexTables"],
+    "lean_modules": ["RsslVerif.Thm.C12", "RsslVerif.Thm.C12Boundary"],
     "theorems": [T + n for n in [
         "source_shape", "expand_terminates", "expand_never_hangs", "object_like_is_substitution", "function_like_is_substitution",
         "define_undef_scoping", "macro_names_always_distinct", "api_defines_equal_file_defines",
-        "expand_refines_spec_partial", "include_is_paste", "pragma_once_once"]],
+        "expand_refines_spec_partial", "expand_refines_spec", "expand_refines_spec_decided", "tame_class_is_decided",
+        "expand_refines_spec_with_paste", "expand_refines_spec_with_paste_decided",
+        "tame_class_is_part_of_class_with_paste",
+        "object_like_refines_spec",
+        "trailing_function_name_is_invoked", "paste_is_single_token", "paste_matches_lexer",
+        "parse_yields_wellformed_macro", "directive_takes_effect_from_its_line",
+        "api_defines_equal_file_defines_tokens", "include_of_empty_file",
+        "include_is_paste", "pragma_once_once",
+        "differs_line_end_before_parenthesis", "differs_unused_argument_expanded", "differs_argument_repainted",
+        "differs_painted_function_name_reinvoked", "differs_painted_function_name_reinvoked_acyclic",
+        "differs_function_name_before_vanished_macro", "differs_empty_argument_next_to_paste",
+        "agrees_on_invocation_completed_after_expansion", "differs_outside_class_with_paste"]],
     "harness": "c12",
     "nontrivial": nontrivial,
     "finding_key": finding_key,
     "shrink": shrink,
     "search": search,
-    "level_text": "Proof, partial. Kernel-checked for every macro list, token list, API define list and include graph: the "
-                  "model's expansion function (loop + recursive expansion of arguments and bodies of preprocess.rs, after the d00f5aa "
-                  "fix) is total by the lexicographic measure (enabled macros, tokens right of next_pos), its measure guards never "
-                  "fire (expand_terminates) and the non-advancing `continue` of find_single_macro is unreachable "
-                  "(expand_never_hangs); invoking an object-like / function-like macro (n >= 1 parameters, arguments with nested "
-                  "parentheses and commas) on inert text yields the body with the arguments substituted; the macro list never holds "
-                  "two entries of a name through a whole run and lookup = latest #define not followed by #undef; API defines = "
-                  "#define lines placed before the first line (full, after the 9f7cdb8 fix); #include = the file's lines between two "
-                  "block boundaries; a #pragma once file contributes once. Partial: equivalence with the reference C algorithm "
-                  "(Spec.CPreMacro.expand, Prosser) is proved for the classes named in expand_refines_spec_partial; the rest of the "
-                  "rescanning equivalence is covered by the correspondence run against an independent reference preprocessor in "
-                  "the harness, which exhibits six reproducible deviations from C (listed as known findings).",
+    "custom": custom,
+    "level_text": "Proof; partial only at the places named below. Kernel-checked for every macro list, token list, API define "
+                  "list and include graph: the model's expansion function (loop + recursive expansion of arguments and bodies of "
+                  "preprocess.rs) is total, its measure guards never fire and the non-advancing `continue` of find_single_macro is "
+                  "unreachable; REFINEMENT: whenever a token list has a tame expansion (Lemmas.MacroTame.Tame; decided by the "
+                  "executable tameRun) the model's result and the reference C algorithm (Spec.CPreMacro.expand, Prosser's hide-set "
+                  "algorithm, for some fuel) yield the same tokens (expand_refines_spec[_decided]; with ## in replacement lists: "
+                  "expand_refines_spec_with_paste[_decided], class TameP decided by tameRunP -- about half of the generated "
+                  "programs): object- and function-like macros, any number of parameters, nested invocations in arguments and "
+                  "replacement lists, parenthesised commas, self- and mutually referential macros, ## between tokens of the "
+                  "replacement list and/or parameters; for tables of object-like macros every token list is tame "
+                  "(object_like_refines_spec: object-like macros in full). The side conditions of the class are each shown "
+                  "necessary by a witness evaluated in Lean on model and reference (differs_*: line end before '(', unused "
+                  "argument, argument repainted, painted name re-invoked, name before a vanished macro, empty argument next to "
+                  "##) and replayed on the real code. ## : one paste step replaces l ws* ## ws* r by one token spelled l+r "
+                  "(paste_is_single_token); which joined spellings are one token agrees with the lexer model of C10 "
+                  "(identifiers and decimal numbers universally, the 49 operator pairs exhaustively, keyword tables). Scope of definitions: the list "
+                  "never holds two entries of a name, lookup = latest #define not followed by #undef, a directive takes effect "
+                  "from its line; API defines = #define lines before the first line (every entry file); #include = the file's "
+                  "lines between two block boundaries (empty file: one line end); a #pragma once file contributes once. PARTIAL: "
+                  "(a) of ##: operands or results that are enabled macro names, ## inside the argument list of a nested invocation, "
+                  "empty arguments next to ## lie outside the class; (b) invocations completed by the text after the end of an "
+                  "expansion are excluded from the class (universal statement for the model: trailing_function_name_is_invoked; "
+                  "agreement with C on witnesses only). The "
+                  "correspondence run checks on every generated program that lies in the class (driver op C12.tame) that the real "
+                  "preprocessor equals the harness's independent reference preprocessor.",
     "rule": "requests = (API define list, include graph of files given line by line as token lists); the harness renders the "
             "files, checks with the real lexer that every line lexes to exactly the request's tokens, runs the real "
             "rssl_preprocess::preprocess + prepare_tokens and compares kinds/values of the result with the model and with an "
             "independent reference C preprocessor (Prosser's hide-set algorithm) written in the harness; generated programs: "
             "1-6 macros with 0-3 parameters, bodies of up to 8 elements referring to parameters, other macros, themselves, with "
             "## pastes; 1-10 invocation sites with nested invocations, parenthesised commas, empty arguments, wrong arities, "
-            "argument lists spanning lines; redefinitions and #undef between the sites; 1-5 files with and without #pragma once, "
+            "argument lists spanning lines, bodies ending in a function-like name (followed by nothing, a parameter or an "
+            "object-like macro that may expand to nothing), sites continued by parenthesised groups (M()(2)(1)), comments and "
+            "blanks at token boundaries; redefinitions and #undef between the sites; 1-5 files with and without #pragma once, "
             "repeated and back-edge includes; every leading object-like definition placed in the file, in the API list, and split; "
-            "non-trivial = a macro is defined and at least three tokens come out",
+            "generated programs run in a worker process under a time/memory limit (expansion blow-up = known finding); "
+            "every program is also classified by the model (C12.tame): inside the class of expand_refines_spec_with_paste_decided the "
+            "real output must equal the reference; non-trivial = a macro is defined and at least three tokens come out",
     "trusted_base": [
         "Lean 4.33 kernel; axioms propext / Classical.choice / Quot.sound only (audited by #print axioms)",
         "tools/gens/c12.py (MacroTables: any_word keyword arms, preprocess_command directive arms and the retain/push shape of "
-        "define/undef, the pragma names, Token::is_whitespace, the apply_macros_internal call that expands arguments, the "
-        "Macro::parse + retain + push path of initial defines, compile()'s built-in defines) — re-run on /repo's working tree every time",
+        "define/undef, the pragma names, Token::is_whitespace, the apply_macros_internal call that expands arguments, every "
+        "MacroSearchPosition literal and the conditions of find_single_macro that consult it, the Macro::parse + retain + push "
+        "path of initial defines, compile()'s built-in defines) and tools/gens/c10.py (LexTables, for paste_matches_lexer) — "
+        "re-run on /repo's working tree every time",
         "hand-written Model/Macro.lean and Model/Include.lean mirror preprocess.rs; tied to the code by the correspondence run only",
-        "Spec/CPre.lean: our reading of C11 6.10.3 (Prosser's algorithm) and 6.10.3.5 (scope of definitions)",
+        "Spec/CPreMacro.lean: our reading of C11 6.10.3 (Prosser's algorithm) and 6.10.3.5 (scope of definitions); "
+        "Lemmas.MacroTame.Tame / Lemmas.MacroTameP.TameP / Model.MacroTame.tameRun, tameRunP: the definition of the class of "
+        "the refinement theorems",
+        "Model/Lexer.lean (C10's lexer model) for paste_matches_lexer",
         "harness reference preprocessor (Rust) = the oracle of the correspondence run; the lexer is used as given (C10)",
     ],
     "assumptions": [
